@@ -3,6 +3,7 @@ import GramModel.Parser
 import GramModel.Lemmas.Parser
 import GramModel.Lemmas.ParserTermination
 import GramModel.Lemmas.ParserCalls
+import GramModel.Lemmas.CostBounds
 
 /-!
 # C17 — parsing time does not blow up with nesting or length
@@ -149,3 +150,192 @@ theorem C17_parser_terminates_linear : C17_parser_terminates_linear_stmt := by
   intro toks
   obtain ⟨r, st', h, _⟩ := PModel.runParser_ok toks
   exact ⟨r, st', h, PModel.runParser_calls_le toks r st' h⟩
+
+
+/-! ## Step counts: the tokenizer's loops and the parser's recovery scans
+
+The theorems above count *calls* of the packrat functions.  The remaining loops of the two phases
+are the tokenizer's scanning loop (with its inner loops over identifier / number tails and
+comments), its second pass, and the parser's error-recovery scan inside `expect_token_*!`.  Each is
+given a *counting twin* in `Lemmas/CostBounds.lean` — the same recursion with one more output — and
+every statement below first ties the twin to the model's own function (first component equal) and
+then bounds the count. -/
+
+/-- **The scanning loop runs at most once per character**: fuel `length` is enough, more fuel
+changes nothing (so `tokenize`, which runs `scan` with fuel `text.length`, never stops early). -/
+def C17_scan_fuel_enough_stmt : Prop :=
+  ∀ (cc : CharClass) (cs : List Char) (pos : Nat) (s : LexState) (k : Nat),
+    scan cc (cs.length + k) pos cs s = scan cc cs.length pos cs s
+theorem C17_scan_fuel_enough : C17_scan_fuel_enough_stmt := by
+  intro cc cs pos s k
+  exact scan_fuel_irrel cc _ _ pos cs s (Nat.le_add_right _ _) (Nat.le_refl _)
+
+/-- **The scanning loop inspects every character at most twice.**  `scanC` is `scan` with a
+counter: both are iterations of the same one-step function `lexStep` (`scan_succ`), and the counter
+adds, per iteration, 1 for the current character, 1 for the look-ahead of `-` `<` `=` `>` (when
+there is a next character), and the characters inspected by `spanChars` / `skipComment` (the
+consumed ones plus the one that stops the inner loop).  The total is at most `2 · length`: each
+character is inspected once when consumed and at most once as the look-ahead ending the previous
+lexeme.  (The constant 2 is attained: `-----` costs `2 · 5 - 1`.) -/
+def C17_scan_steps_le_stmt : Prop :=
+  ∀ (cc : CharClass) (fuel pos : Nat) (cs : List Char) (s : LexState),
+    (scanC cc fuel pos cs s).1 = scan cc fuel pos cs s ∧
+    scanSteps cc fuel pos cs s = (scanC cc fuel pos cs s).2 ∧
+    scanSteps cc fuel pos cs s ≤ 2 * cs.length ∧
+    (∀ k, scanC cc (cs.length + k) pos cs s = scanC cc cs.length pos cs s)
+theorem C17_scan_steps_le : C17_scan_steps_le_stmt := by
+  intro cc fuel pos cs s
+  exact ⟨scanC_fst cc fuel pos cs s, rfl, scanC_steps_le cc fuel pos cs s,
+    fun k => scanC_fuel_irrel cc _ _ pos cs s (Nat.le_add_right _ _) (Nat.le_refl _)⟩
+
+/-- **The second pass is one pass**: `filterToks` makes exactly `length + 1` calls (`filterToksC` is
+`filterToks` with a call counter), and never lengthens the list. -/
+def C17_filter_linear_stmt : Prop :=
+  ∀ (ts : List Tok),
+    (filterToksC ts).1 = filterToks ts ∧ (filterToksC ts).2 = ts.length + 1 ∧
+    ∀ ts', filterToks ts = some ts' → ts'.length ≤ ts.length
+theorem C17_filter_linear : C17_filter_linear_stmt := by
+  intro ts
+  exact ⟨filterToksC_fst ts, filterToksC_snd ts, fun ts' h => filterToks_length_le ts ts' h⟩
+
+/-- **The tokenizer is linear.**  `tokenizeC` is `tokenize` with a step counter = character
+inspections of the scanning loop + one step per element of the reversed token (or error) list +
+the calls of the second pass.  For a text of `n` characters it makes at most `4 · n + 1` steps, and
+produces at most `n` tokens. -/
+def C17_tokenize_linear_stmt : Prop :=
+  ∀ (cc : CharClass) (text : List Char),
+    (tokenizeC cc text).1 = tokenize cc text ∧
+    (tokenizeC cc text).2 ≤ 4 * text.length + 1 ∧
+    ∀ ts, tokenize cc text = .ok ts → ts.length ≤ text.length
+theorem C17_tokenize_linear : C17_tokenize_linear_stmt := by
+  intro cc text
+  exact ⟨tokenizeC_fst cc text, tokenizeC_steps_le cc text,
+    fun ts h => tokenize_length_le cc text ts h⟩
+
+open PModel in
+/-- **One recovery scan costs at most the number of remaining tokens.**  `scanLoopC` is `scanLoop`
+with a counter of the tokens inspected: at most its fuel, and at most the distance it advances
+plus one.  `expect_token_*!` (`expectTokenC` = `expectToken` with the count: the peek that decides
+whether to report, plus the scan, which is run with fuel `tokens.len() - next`) therefore inspects
+at most `tokens.len() - next + 1` tokens. -/
+def C17_recovery_scan_le_stmt : Prop :=
+  ∀ (toks : Array PTok) (target : PKind → Bool),
+    (∀ n next depth,
+      (scanLoopC toks target n next depth).1 = scanLoop toks target n next depth ∧
+      scanLoopSteps toks target n next depth = (scanLoopC toks target n next depth).2 ∧
+      scanLoopSteps toks target n next depth ≤ n ∧
+      scanLoopSteps toks target n next depth + next ≤ (scanLoop toks target n next depth).2 + 1) ∧
+    (∀ next rep,
+      (expectTokenC toks next target rep).1 = expectToken toks next target rep ∧
+      expectTokenSteps toks next target rep = (expectTokenC toks next target rep).2 ∧
+      expectTokenSteps toks next target rep ≤ toks.size - next + 1)
+open PModel in
+theorem C17_recovery_scan_le : C17_recovery_scan_le_stmt := by
+  intro toks target
+  refine ⟨fun n next depth => ⟨scanLoopC_fst toks target n next depth, rfl, ?_, ?_⟩,
+    fun next rep => ⟨rfl, rfl, expectTokenSteps_le toks next target rep⟩⟩
+  · exact (scanLoopC_steps_le toks target n next depth).1
+  · rw [← scanLoopC_fst]; exact (scanLoopC_steps_le toks target n next depth).2
+
+open PModel in
+/-- **One body execution makes at most two recovery scans.**  `parseBodyC toks rec nt start` is the
+body of the packrat function for `nt` with one more output: the tokens inspected by the
+`expectToken` calls of *this execution of the body* (`parseLetC`, `parseIfC`, `parseGroupC` are
+writer-style twins of the three bodies that scan; the other 33 bodies contain no loop and get 0).
+Forgetting the count gives `parseBody`; and from every state, whatever the recursive calls `rec`
+return, the count is at most `2 · (n + 1)` (`parse_let`: the scans for `=` and for the terminator;
+`parse_if`: for `then` and `else`), and at most `n + 1` for `parse_group` (one scan for `)`). -/
+def C17_body_scans_le_stmt : Prop :=
+  ∀ (toks : Array PTok) (rec : NT → Nat → ParseM PResult) (nt : NT) (start : Nat),
+    Prod.fst <$> parseBodyC toks rec nt start = parseBody toks rec nt start ∧
+    (∀ st r k st', parseBodyC toks rec nt start st = some ((r, k), st') →
+      k ≤ 2 * (toks.size + 1) ∧ (nt = .group → k ≤ toks.size + 1) ∧
+      (nt ≠ .let_ → nt ≠ .if_ → nt ≠ .group → k = 0))
+open PModel in
+theorem C17_body_scans_le : C17_body_scans_le_stmt := by
+  intro toks rec nt start
+  refine ⟨parseBodyC_fst toks rec nt start, fun st r k st' e => ⟨?_, ?_, ?_⟩⟩
+  · exact (parseBodyC_cost toks rec nt start).elim e
+  · intro h; subst h
+    exact (parseGroupC_cost toks rec start).elim e
+  · intro h1 h2 h3
+    have h0 : CostLe (parseBodyC toks rec nt start) 0 := by
+      cases nt <;> first | exact absurd rfl h1 | exact absurd rfl h2 | exact absurd rfl h3
+                         | exact CostLe.map0
+    have := h0.elim e
+    omega
+
+open PModel in
+/-- **The parse phase costs at most quadratically many steps.**  Cost model of a run: one step per
+call of a memoised function (hit or miss) plus the tokens inspected by the recovery scans.  Scans
+happen only inside body executions; a body is executed exactly once per miss and not at all on a
+hit (`C17_miss_inserts_key`); one execution inspects at most `2 · (n + 1)` tokens
+(`C17_body_scans_le`).  So the scans of a run inspect at most
+`scanBudget = misses · 2 · (n + 1) ≤ 72 · (n + 1)²` tokens, and
+`runSteps = hits + misses + scanBudget ≤ 361 · (n + 1) + 72 · (n + 1)²`.  Every run terminates
+within the model's fuel, so the bound holds for every token array. -/
+def C17_parse_steps_quadratic_stmt : Prop :=
+  ∀ (toks : Array PTok), ∃ (r : PResult) (st' : PState),
+    runParser toks = some (r, st') ∧
+    scanBudget toks st' = (st'.misses.foldl (· + ·) 0) * (2 * (toks.size + 1)) ∧
+    runSteps toks st' =
+      (st'.hits.foldl (· + ·) 0) + (st'.misses.foldl (· + ·) 0) + scanBudget toks st' ∧
+    scanBudget toks st' ≤ 72 * ((toks.size + 1) * (toks.size + 1)) ∧
+    runSteps toks st' ≤ 361 * (toks.size + 1) + 72 * ((toks.size + 1) * (toks.size + 1))
+open PModel in
+theorem C17_parse_steps_quadratic : C17_parse_steps_quadratic_stmt := by
+  intro toks
+  obtain ⟨r, st', h, _⟩ := runParser_ok toks
+  have hb := runParser_steps_le toks r st' h
+  exact ⟨r, st', h, rfl, rfl, hb.1, hb.2⟩
+
+/-! ### Non-vacuity: the counters on concrete inputs -/
+
+def C17_cc : CharClass :=
+  { isAlpha := fun c => ('a' ≤ c ∧ c ≤ 'z')
+    isAlnum := fun c => ('a' ≤ c ∧ c ≤ 'z') || ('0' ≤ c ∧ c ≤ '9')
+    isWs := fun c => c == ' ' || c == '\n'
+    graphemeEnd := fun p => p + 1 }
+
+/-- `x = 1 # c⏎y` (11 characters) -/
+def C17_text : List Char := ['x', ' ', '=', ' ', '1', ' ', '#', ' ', 'c', '\n', 'y']
+
+-- the scanning loop inspects 15 ≤ 2 · 11 characters; the whole tokenizer makes 15 + 5 + 6 = 26 ≤ 45 steps
+example : scanSteps C17_cc C17_text.length 0 C17_text { toks := [], errs := [] } = 15 := by decide
+example : tokenizeC C17_cc C17_text =
+    (.ok [⟨.identifier ['x'], 0, 1⟩, ⟨.equals, 2, 3⟩, ⟨.integerLiteral 1, 4, 5⟩,
+          ⟨.terminatorLineBreak, 9, 10⟩, ⟨.identifier ['y'], 10, 11⟩], 26) := by decide
+-- the constant 2 is attained: five dashes cost 2 · 5 - 1 inspections; the tokenizer 20 ≤ 4 · 5 + 1
+example : scanSteps C17_cc 5 0 ['-', '-', '-', '-', '-'] { toks := [], errs := [] } = 9 := by decide
+example : (tokenizeC C17_cc ['-', '-', '-', '-', '-']).2 = 20 := by decide
+-- the second pass on a lone line-break terminator: 2 calls, the terminator is dropped
+example : filterToksC [⟨.terminatorLineBreak, 0, 1⟩] = (some [], 2) := by decide
+-- more fuel changes neither the result nor the count
+example : scanC C17_cc (C17_text.length + 7) 0 C17_text { toks := [], errs := [] } =
+    scanC C17_cc C17_text.length 0 C17_text { toks := [], errs := [] } :=
+  (C17_scan_steps_le C17_cc 0 0 C17_text _).2.2.2 7
+
+/-- `( ( ( x`: three parentheses that are never closed -/
+def C17_open3 : Array PModel.PTok :=
+  #[⟨.leftParen, ⟨0, 1⟩⟩, ⟨.leftParen, ⟨2, 3⟩⟩, ⟨.leftParen, ⟨4, 5⟩⟩, ⟨.identifier 1, ⟨6, 7⟩⟩]
+
+-- a scan for `then` from the start walks over all 4 tokens (= its fuel) and fails at the end;
+-- with the peek, `expect_token` inspects 5 = 4 - 0 + 1 tokens: the bound is attained
+example : PModel.scanLoopC C17_open3 (· = .then_) 4 0 0 = ((false, 4), 4) := by decide
+example : PModel.expectTokenSteps C17_open3 0 (· = .then_) true = 5 := by decide
+example : PModel.expectTokenSteps C17_open3 1 (· = .rightParen) true = 4 := by decide
+
+/-- `( x : y z )`: the group's term ends at `:`, the scan for `)` walks over `: y z )` -/
+def C17_junk : Array PModel.PTok :=
+  #[⟨.leftParen, ⟨0, 1⟩⟩, ⟨.identifier 1, ⟨1, 2⟩⟩, ⟨.colon, ⟨2, 3⟩⟩, ⟨.identifier 2, ⟨3, 4⟩⟩,
+    ⟨.identifier 3, ⟨4, 5⟩⟩, ⟨.rightParen, ⟨5, 6⟩⟩]
+
+/-- a stand-in for the recursive call: a one-token term -/
+def C17_stub : PModel.NT → Nat → PModel.ParseM PModel.PResult :=
+  fun _ pos => pure ⟨.mk ⟨0, 0⟩ false (.var 1) [], pos + 1, true⟩
+
+-- the body of `parse_group` on it: one scan, 1 (peek) + 4 = 5 = 6 - 2 + 1 token inspections
+example : (PModel.parseGroupC C17_junk C17_stub 0 PModel.PState.init).map (·.1.2) = some 5 := by
+  decide
+example : (PModel.parseBodyC C17_junk C17_stub .group 0 PModel.PState.init).map (·.1.2) = some 5 := by
+  decide
